@@ -73,6 +73,8 @@ class PipeSim(Sim):
         self.stage_submit_count = {}
         self.next_stage_cmds = {}  # k -> [(return code, host)]
         self.stage_complete_seen = {}
+        self.stage_completions = {}
+        self.post_resub_stage = None
         self.obs_prev = 0
         self.all_jobs = dict(self.jobs)
         self.jobs = {j["name"]: j for j in scen["stages"][0]}
@@ -126,6 +128,7 @@ class PipeSim(Sim):
 
     def on_complete_visible(self, o):
         self.stage_complete_seen[self.stage] = True
+        self.stage_completions[self.stage] = self.stage_completions.get(self.stage, 0) + 1
         Sim.on_complete_visible(self, o)
 
     def on_py_hello(self, a, msg):
@@ -137,20 +140,25 @@ class PipeSim(Sim):
             rc = int(r.group(1)) if r else None
             self.next_stage_cmds.setdefault(k, []).append((rc, a.host))
             self.log("NEXT_STAGE_CMD", k, rc, a.host)
-            if len(self.next_stage_cmds[k]) > 1:
-                self.viol("C15", "next-stage-twice", f"submit-next-stage --stage-num={k} was run {len(self.next_stage_cmds[k])} times")
+            # one notification per completion of stage k-1 (a stage that is resubmitted later completes again)
+            if len(self.next_stage_cmds[k]) > self.stage_completions.get(k - 1, 0):
+                self.viol("C15", "next-stage-twice", f"submit-next-stage --stage-num={k} was run {len(self.next_stage_cmds[k])} times for {self.stage_completions.get(k - 1, 0)} completion(s) of stage {k - 1}")
             if not self.stage_complete_seen.get(k - 1) and not self.stage_is_complete_on_disk(k - 1):
                 self.viol("C15", "next-stage-before-complete", f"submit-next-stage --stage-num={k} started while stage {k - 1} is not complete")
 
     def node_limit(self, job, node):
         g = self.scen["groups"][0]
-        return g["procs_opt"] if g.get("procs_opt") else 3
+        if g.get("procs_opt"):
+            return g["procs_opt"]
+        return os.cpu_count() if self.scen.get("mode") == "local" else 3
 
     def run(self):
         os.chdir(self.root)
         self.spawn_top("submit", ["jade", "pipeline", "submit", "pipeline.json", "-o", "pout"], "login")
         try:
             self.drive()
+            if self.scen.get("resubmit_stage"):
+                self.post_resubmit()
             self.final_checks()
             err = None
         except Inconclusive as e:
@@ -161,7 +169,39 @@ class PipeSim(Sim):
         res["stages_submitted"] = len(self.stage_submit_count)
         res["next_stage_cmds"] = sum(len(v) for v in self.next_stage_cmds.values())
         res["pipeline_complete"] = getattr(self, "pipeline_complete", None)
+        res["stage_resubmitted"] = bool(getattr(self, "stage_resubmitted", False))
+        res["nonzero_stage_rcs"] = sum(1 for v in self.next_stage_cmds.values() for (rc, h) in v if rc not in (0, None))
         return res
+
+    def post_resubmit(self):
+        """History extension: after the pipeline completed, the user resubmits the failed jobs of one stage.  That stage
+        completes a second time; the pipeline's bookkeeping and the later stages must be left alone."""
+        try:
+            pj = json.load(open(os.path.join(self.pout, "pipeline.json")))
+        except (OSError, ValueError):
+            return
+        if not pj.get("is_complete") or not self.ff_now:
+            return
+        k = self.rng.randint(1, self.nstages)
+        self.post_resub_stage = k
+        self.pipeline_before = {"stage_num": pj.get("stage_num"), "is_complete": pj.get("is_complete"), "rcs": [st.get("return_code") for st in pj["stages"]]}
+        self.switch_stage(k)
+        self.epoch = 100 + k
+        from jade.result import ResultsSummary
+
+        try:
+            rs = ResultsSummary(self.outname)
+        except Exception:
+            return
+        cls = {r.name: self.classify(r) for r in rs.list_results()}
+        sel = {n for n, c in cls.items() if c in ("failed", "canceled")} | set(rs.missing_jobs)
+        closure = model.dependents_closure(self.scen["stages"][k - 1], sel)
+        self.resub = {"selected": closure, "rc_key": "rc2", "model2": {}}
+        self.epoch_transition = True
+        self.log("STAGE_RESUBMIT", k, sorted(sel), sorted(closure))
+        self.spawn_top(f"stageresub{k}", ["jade", "resubmit-jobs", self.outname], "login")
+        self.drive()
+        self.stage_resubmitted = True
 
     def on_idle(self):
         # the pipeline is over when the last stage is complete; otherwise the documented recovery applies to the current stage
@@ -175,6 +215,11 @@ class PipeSim(Sim):
             V("pipeline-json-unreadable", repr(e))
             return
         self.pipeline_complete = pj.get("is_complete")
+        if self.post_resub_stage:
+            pb = self.pipeline_before
+            now = {"stage_num": pj.get("stage_num"), "is_complete": pj.get("is_complete")}
+            if now != {"stage_num": pb["stage_num"], "is_complete": pb["is_complete"]}:
+                V("bookkeeping-changed-by-stage-resubmission", f"resubmitting stage {self.post_resub_stage} of a completed pipeline changed pipeline.json from {pb} to {now}")
         last_created = max(self.stage_submit_count) if self.stage_submit_count else 0
         last_done = bool(self.stage_is_complete_on_disk(self.nstages)) if last_created == self.nstages else False
         exp_stage_num = self.nstages + 1 if (last_done and self.next_stage_cmds.get(self.nstages + 1)) else last_created
@@ -197,8 +242,8 @@ class PipeSim(Sim):
             rec = pj["stages"][k - 1].get("return_code")
             cmds = self.next_stage_cmds.get(k + 1) or []
             done = self.stage_is_complete_on_disk(k)
-            if done and self.ff_now and len(cmds) != 1:
-                V("next-stage-count", f"stage {k} completed but submit-next-stage --stage-num={k + 1} ran {len(cmds)} times")
+            if done and self.ff_now and len(cmds) != self.stage_completions.get(k, 1):
+                V("next-stage-count", f"stage {k} completed {self.stage_completions.get(k, 1)} time(s) but submit-next-stage --stage-num={k + 1} ran {len(cmds)} times")
             if cmds:
                 if rec != cmds[0][0]:
                     V("return-code-recorded", f"stage {k}: pipeline.json records return_code={rec} but the completing submitter passed --return-code={cmds[0][0]}")
@@ -211,7 +256,7 @@ class PipeSim(Sim):
                         V("return-code-zero-with-missing", f"stage {k} ended with missing jobs {missing} but return code 0 was passed on")
                     if allok and cmds[0][0] != 0:
                         V("return-code-nonzero-all-successful", f"stage {k}: all jobs successful but return code {cmds[0][0]}")
-                    if self.ff_now:
+                    if self.ff_now and k != self.post_resub_stage:
                         mdl = model.evaluate(stage_jobs)
                         for n, (c, rc) in mdl.items():
                             if classes.get(n) != c:
@@ -220,8 +265,9 @@ class PipeSim(Sim):
                     V("stage-results-unreadable", f"stage {k}: {e!r}")
         # each job started at most once over the whole pipeline
         for n, ls in self.launches.items():
-            if len(ls) > 1:
-                self.viol("C01", "job-started-twice", f"{n} started {len(ls)} times in the pipeline")
+            allowed = 2 if (self.post_resub_stage and self.stage_of.get(n) == self.post_resub_stage) else 1
+            if len(ls) > allowed:
+                self.viol("C15" if self.post_resub_stage else "C01", "job-started-twice", f"{n} (stage {self.stage_of.get(n)}) started {len(ls)} times in the pipeline")
         last = self.obs[-1] if self.obs else None
         self.complete = bool(pj.get("is_complete"))
         if self.ff_now and not self.complete:
